@@ -1,5 +1,7 @@
 import GqlVerif.Props.C07
 import GqlVerif.Proofs.C07Frontends
+import GqlVerif.Proofs.C07ExtensionsCodegen
+import GqlVerif.Proofs.C07Permutations
 open GqlVerif.C07
 #print axioms wrapped_equal
 #print axioms absent_eq_null
@@ -15,3 +17,16 @@ open GqlVerif.C07
 #print axioms frontends_equal
 #print axioms parseIntro_json
 #print axioms frontends_equal_json
+-- `extend type` blocks and type-order permutations (Proofs/C07Extensions*.lean, C07Permutations.lean)
+#print axioms sdl_spec_ext
+#print axioms frontends_iso_ext_of_renderings
+#print axioms frontends_iso_ext_json
+#print axioms frontends_equal_ext_iff
+#print axioms frontends_equal_ext
+#print axioms resolve_iso
+#print axioms codegen_respects_field_renumbering
+#print axioms codegen_equal_ext_of_renderings
+#print axioms codegen_equal_ext_json
+#print axioms toSchema_perm
+#print axioms frontends_iso_perm
+#print axioms codegen_perm_eq_mapTypes
